@@ -171,7 +171,7 @@ def shard(acc, tier, idx, n):
     # ---- (iv) zones -----------------------------------------------------------------------------------------------
     grids = [(None, (0x10, 0x1F)), ((0x08, 0x7F), (0x10, 0x1F)), ((0x08, 0x7F), (0x08, 0x0F)), (None, (0, 0)), ((0x20, 0xFF), (0xF0, 0xFF))]
     for g, z in grids:
-        for kind in ('address-global', 'address-zone', 'valid-numeric', 'plain-numeric'):
+        for kind in ('address-global', 'address-zone', 'valid-numeric', 'valid-indirect', 'valid-deferred', 'plain-numeric'):
             ctr += 1
             if ctr % n != idx:
                 continue
@@ -185,8 +185,10 @@ def shard(acc, tier, idx, n):
             elif kind == 'address-zone':
                 cfgd = {'type': 'address', 'argument': {'size': 16, 'byte_align': True, 'memory_zone': 'zq'}}
                 lo, hi = z
-            elif kind == 'valid-numeric':
-                cfgd = {'type': 'numeric', 'argument': {'size': 16, 'byte_align': True, 'valid_address': True}}
+            elif kind in ('valid-numeric', 'valid-indirect', 'valid-deferred'):
+                # the valid_address flag binds numeric, indirect ([expr]) and deferred ([[expr]]) operands alike
+                typ = {'valid-numeric': 'numeric', 'valid-indirect': 'indirect_numeric', 'valid-deferred': 'deferred_numeric'}[kind]
+                cfgd = {'type': typ, 'argument': {'size': 16, 'byte_align': True, 'valid_address': True}}
                 lo, hi = glo, ghi
             else:
                 cfgd = {'type': 'numeric', 'argument': {'size': 16, 'byte_align': True}}
@@ -202,7 +204,8 @@ def shard(acc, tier, idx, n):
                 if ok:
                     ordered, _, _ = ins.fields('little', ((str(v), None, (v, 16)),), glo + 4)
                     exp = refenc.encode(ordered)
-                one(acc, isa, 'tst ' + G.lit(v), exp, 'zone', addr=max(glo, 0) + 4, why=f'{v} outside {lo}..{hi}')
+                wrap = {'valid-indirect': '[{}]', 'valid-deferred': '[[{}]]'}.get(kind, '{}')
+                one(acc, isa, 'tst ' + wrap.format(G.lit(v)), exp, 'zone', addr=max(glo, 0) + 4, why=f'{v} outside {lo}..{hi}')
     # ---- (v) sliced addresses --------------------------------------------------------------------------------------
     for w in (4, 8, 12):
         page = 1 << w
